@@ -460,10 +460,14 @@ def _set(node, v, content):
 
 
 def _ver(node):
-    h = _holder(node)
-    if h is None:
-        return 0
-    a = h.inputs.a.value
+    """the version the node state holds (0 = fresh); 999 if the object is no longer a sane node"""
+    try:
+        h = _holder(node)
+        if h is None:
+            return 0
+        a = h.inputs.a.value
+    except Exception:  # noqa: BLE001
+        return 999
     return a if isinstance(a, int) and not isinstance(a, bool) else 0
 
 
@@ -473,11 +477,14 @@ def _summary(node):
     def io(n):
         return ([(k, repr(c.value)) for k, c in n.inputs.items()], [(k, repr(c.value)) for k, c in n.outputs.items()])
 
-    s = [type(node).__name__, node.label, node.running, node.failed]
-    if isinstance(node, Workflow):
-        s.append([(lab, type(ch).__name__, io(ch)) for lab, ch in node.children.items()])
-    else:
-        s.append(io(node))
+    try:
+        s = [type(node).__name__, node.label, node.running, node.failed]
+        if isinstance(node, Workflow):
+            s.append([(lab, type(ch).__name__, io(ch)) for lab, ch in node.children.items()])
+        else:
+            s.append(io(node))
+    except Exception as e:  # noqa: BLE001
+        return f"broken:{type(e).__name__}"
     return repr(s)
 
 
